@@ -30,6 +30,20 @@ def gw(pid, design, text):
                 technique="TLC model checking of Gateway.tla (GatewayMC.tla focus runs) + replay of TLC behaviours into the real "
                           "Gateway + TLC trace validation of recorded executions (GatewayTrace.tla)")
 CHECKS.update({
+ "C06": gw("C06", "5 C06", "Id allocation is the freedom point HIdReq(ch.id) with guard id in 1..MaxId minus (known nodes and every id issued before - a history "
+        "variable that survives restarts); TLC explores id requests, presentations of ids 0..5/255, ticks and stop/restart (MaxId=4) "
+        "and checks IdsInRangeAndFresh and CleanMeansSaved. Real gateways share one persistence file (json and pickle alternating) over "
+        "several lifetimes with a virtual timer; an id response carrying a known / earlier issued / out-of-range id makes the "
+        "trace action disabled and the trace is rejected."),
+ "C11": gw("C11", "5 C11", "Persisted(nodes) of Gateway.tla is the round-trip contract. At random points of real histories (smart-sleep and OTA "
+        "sessions active, Unicode / JSON-special payloads, ids 0..255) the live state is saved as JSON and as pickle and loaded "
+        "into fresh gateways through start_persistence(); TLC checks both loaded trees equal Persisted(nodes) of the specification "
+        "state reached by validating the same trace, and that desired maps, hold queues and reboot flags are reset."),
+ "C14": gw("C14", "5 C14", "Gateway.tla models the dirty flag as the code does (set by alert(), cleared by a save, save skipped when clear); TLC checks "
+        "CleanMeansSaved - whenever the state is not marked unsaved the file already holds it - over every handler kind x tick "
+        "position x stop. Real histories with virtual timer ticks and stop(); after every tick / stop a fresh gateway loads the file "
+        "and the loaded tree must equal the specification's disk; the dirty flag must be set whenever a save would change the file. "
+        "Threaded flavour here; the asyncio save loop is exercised by C15."),
  "C01": gw("C01", "5 C01", "Every inbound line is the action Logic(l) of Gateway.tla whose first guards are well-formedness (Wire.tla mirror) and "
         "Accept (Valid.tla); TLC checks NoEffectOnBad and that every reachable step is defined (incl. AcceptedImpliesDeliverable). "
         "Hostile random histories (garbage, truncated frames, malformed stream payloads, harsh set_child_value arguments, raising "
